@@ -314,10 +314,15 @@ def trace_origin(
                 # For non-builtin modules (unfortunately including much of the stdlib),
                 # we try to parse the ast of the module to figure out what __all__ is
                 # likely to contain. This is pretty accurate, but not perfect.
-                with origin.open("r", encoding="utf-8") as stream:
-                    module_source = stream.read()
+                try:
+                    with origin.open("r", encoding="utf-8") as stream:
+                        module_source = stream.read()
 
-                if trace_origin(name, module_source, __all__=True, _depth=_depth + 1):
+                    found = trace_origin(name, module_source, __all__=True, _depth=_depth + 1)
+                except (OSError, UnicodeDecodeError, SyntaxError):
+                    continue  # The other module cannot be read, or is not valid python
+
+                if found:
                     return _TraceResult(core.get_code(node, source), node.lineno, node)
 
         if isinstance(node, (ast.FunctionDef, ast.AsyncFunctionDef, ast.ClassDef)):
@@ -441,10 +446,14 @@ def fix_reimported_names(source: str) -> str:
         if origin.name == "__init__.py":
             continue
 
-        with origin.open("r", encoding="utf-8") as stream:
-            module_source = stream.read()
+        try:
+            with origin.open("r", encoding="utf-8") as stream:
+                module_source = stream.read()
 
-        module_root = core.parse(module_source)
+            module_root = core.parse(module_source)
+        except (OSError, UnicodeDecodeError, SyntaxError):
+            continue  # The other module cannot be read, or is not valid python
+
         if any(core.filter_nodes(module_root.body, all_template)):
             continue
 
